@@ -61,9 +61,11 @@ def _frame(name):
     from beyond.frames.frames import get_frame
     if name in ("EarthBarycenter", "MarsBarycenter") and name not in _JPL:
         # frames created from the JPL kernel shipped with the tests
-        from contracts.c18_bodies import _cfg
+        # (only the kernel files are configured here: the Earth-orientation configuration must stay what it was, dates made before and after
+        # this call have to agree on TAI-UTC)
+        from beyond.config import config
         from beyond.env import jpl
-        _cfg()
+        config.update({"env": {"jpl": {"files": ["/repo/tests/data/jpl/de403_2000-2020.bsp", "/repo/tests/data/jpl/pck00010.tpc", "/repo/tests/data/jpl/gm_de431.tpc"]}}})
         jpl.create_frames()
         _JPL.add(name)
     return get_frame(name)
